@@ -316,7 +316,7 @@ def run_history(lib: Any, doc_node: Any, ops: list[dict]) -> tuple[Any, list]:
     return tr, status
 
 
-def op_in_domain(rs: RefSchema, doc_plain: dict, op: dict) -> bool:
+def op_in_domain(rs: RefSchema, doc_plain: dict, op: dict, declared_attrs_only: bool = False) -> bool:
     """Operations whose *own payload* is invalid are outside every property's domain:
     set_node_markup that turns a leaf into a non-leaf type re-inserts an empty container (not a valid node)."""
     if op["op"] == "set_node_markup" and op.get("type"):
@@ -324,5 +324,11 @@ def op_in_domain(rs: RefSchema, doc_plain: dict, op: dict) -> bool:
 
         tgt = RR.node_at(RR.N(doc_plain, rs), op["pos"])
         if tgt is not None and rs.leaf[tgt["t"]] and not rs.leaf[op["type"]]:
+            return False
+    if declared_attrs_only and op["op"] == "set_node_attribute":
+        from ..ref import resolve as RR
+
+        tgt = RR.node_at(RR.N(doc_plain, rs), op["pos"])
+        if tgt is None or op["attr"] not in (rs.nodes[tgt["t"]].get("attrs") or {}):
             return False
     return True
